@@ -61,7 +61,8 @@ P_IsDx(v) == KFlipLR(v) = [i \in 1..Len(v) |-> -v[i]] /\ KFlipUD(v) = v
 P_DyOfDx(dx, dy) == dy = KTranspose(dx)
 P_GaussShape(v) ==
     LET n == Side(v)  c == n \div 2 IN
-    /\ \A i \in 1..Len(v) : v[i] > 0
+    /\ \A i \in 1..Len(v) : v[i] >= 0          \* (scaled and rounded: far tails may round to 0)
+    /\ KAt(v, n, c, c) > 0
     /\ KTranspose(v) = v /\ KFlipLR(v) = v /\ KFlipUD(v) = v
     /\ \A y \in 0..(n - 1), x \in 0..(n - 2) : IF x < c THEN KAt(v, n, x, y) <= KAt(v, n, x + 1, y) ELSE KAt(v, n, x, y) >= KAt(v, n, x + 1, y)
 P_SumsTo(v, one, tol) == Abs(SumSeq(v) - one) <= tol
